@@ -1118,16 +1118,12 @@ fn has_xlink(parent: &Group) -> bool {
                     }
                 }
 
-                if let Some(ref mask) = g.mask {
-                    if has_xlink(mask.root()) {
+                let mut mask = g.mask.as_ref();
+                while let Some(m) = mask {
+                    if has_xlink(&m.root) {
                         return true;
                     }
-
-                    if let Some(ref sub_mask) = mask.mask {
-                        if has_xlink(&sub_mask.root) {
-                            return true;
-                        }
-                    }
+                    mask = m.mask.as_ref();
                 }
 
                 if has_xlink(g) {
